@@ -227,9 +227,22 @@ Proof. repeat split; reflexivity. Qed.
 Lemma gen_sizes :
   header_len = 12 /\ pack_buffer_size < 16384 /\ 12 < pack_buffer_size /\ question_fixed_len = 4 /\
   rcode_min = 0%Z /\ rcode_max = 4095%Z /\ rcode_plain_max = 15%Z /\
-  ext_ttl_keep_mask = 16777215 /\ ext_rcode_shift = 4 /\ ext_ttl_shift = 24 /\
-  compressible_q_over = 1 /\ compressible_an_over = 0 /\ compressible_ns_over = 0 /\ compressible_ex_over = 0.
+  ext_ttl_keep_mask = 16777215 /\ ext_rcode_shift = 4 /\ ext_ttl_shift = 24.
 Proof. repeat split; reflexivity. Qed.
+
+(* wire.msgIsCompressible as translated from the AST (purefunc over *dns.Msg, the sections being lists
+   of the dns.RR sum type) IS the model's decision on the four section lengths, for every message *)
+Lemma gen_msgIsCompressible : forall m : T_Msg,
+  go_msgIsCompressible m =
+  is_compressible (N.of_nat (length (T_Msg_Question m))) (N.of_nat (length (T_Msg_Answer m)))
+                  (N.of_nat (length (T_Msg_Ns m))) (N.of_nat (length (T_Msg_Extra m))).
+Proof.
+  intros m. unfold go_msgIsCompressible, is_compressible, Common.GoList.go_len.
+  destruct (T_Msg_Question m) as [|q0 [|q1 qs]], (T_Msg_Answer m), (T_Msg_Ns m), (T_Msg_Extra m); cbn [length];
+    repeat match goal with |- context [Z.ltb ?a ?b] => let E := fresh in destruct (Z.ltb_spec a b) as [E|E] end;
+    repeat match goal with |- context [N.ltb ?a ?b] => let E := fresh in destruct (N.ltb_spec a b) as [E|E] end;
+    cbn [orb]; try reflexivity; lia.
+Qed.
 
 (* the record shim answers Header() with ITS OWN header copy, whatever record it wraps (the
    embedded dns.RR is an interface value and is not even part of the translated Record): this
